@@ -3,6 +3,7 @@
 -/
 import Emu.Proofs.BtRows
 import Emu.Bt.Server
+import Emu.Proofs.LeafTie.ValidateFilter
 
 namespace Emu.Props.C12
 open Emu Emu.Bt Emu.Proofs.BtRow Emu.Proofs.BtInv Emu.Proofs.BtRows
@@ -116,5 +117,16 @@ example :
     (match checkAndMutate sch 0 0 rows [97] (.rowLimit 0) [.deleteFromRow] [.setCell [102] [120] 2000 [9]] with
      | .ok (_, b) => b
      | .error _ => true) = false := by decide
+
+/-! ### Tie T1: the repository's own text of the filter validation
+
+`Emu.Generated.Leaf.validateFilter` is `validateFilter` (bttest/validation.go) — the type switch over
+the RowFilter oneof with its checks and its recursion into chains, interleaves and conditions — read
+off the Go text by `factx` on every run; it is the Model's `validFilter` (the function
+`invalid_predicate_rejected` above is about) for EVERY filter tree. -/
+
+theorem source_validateFilter_is_the_models (f : Filter) :
+    Emu.Generated.Leaf.validateFilter f = validFilter f :=
+  Emu.Proofs.LeafTie.validateFilter_tie f
 
 end Emu.Props.C12
